@@ -119,32 +119,9 @@ pub fn run(o: &Opts) -> Report {
     }
     // reference cycles of length 1..6 in three declaration orders, with / without leading and trailing
     // leaf rules, with reduced boxing: they must still compile
-    for n in 1..=6usize {
-        for order in 0..3 {
-            for (lead, trail) in [(false, false), (true, false), (false, true), (true, true)] {
-                let mut cyc: Vec<String> = (0..n)
-                    .map(|i| {
-                        if n == 1 {
-                            "r0 = { \"(\" ~ r0? ~ \")\" }".to_string()
-                        } else {
-                            format!("r{} = {{ \"a\" ~ r{}? }}", i, (i + 1) % n)
-                        }
-                    })
-                    .collect();
-                match order {
-                    1 => cyc.reverse(),
-                    2 => cyc.rotate_left(1.min(n - 1)),
-                    _ => {}
-                }
-                let mut lines = vec![];
-                if lead {
-                    lines.push("lead = { \"l\" }".to_string());
-                }
-                lines.extend(cyc);
-                if trail {
-                    lines.push("tail = { \"t\" }".to_string());
-                }
-                let src = lines.join("\n");
+    for (n, src) in cycle_sources() {
+        {
+            {
                 for set in [vec!["box_only_if_needed"], vec!["box_only_if_needed", "pest_optimizer = false"]] {
                     rep.cases += 1;
                     match generate(&src, &set) {
@@ -173,6 +150,41 @@ pub fn run(o: &Opts) -> Report {
         write_probe_crates(dir, "probe_opt", &compile_probe, 100000);
     }
     rep
+}
+
+/// Reference cycles of length 1..6 in three declaration orders, with / without leading and trailing leaf rules.
+pub fn cycle_sources() -> Vec<(usize, String)> {
+    let mut out = vec![];
+    for n in 1..=6usize {
+        for order in 0..3 {
+            for (lead, trail) in [(false, false), (true, false), (false, true), (true, true)] {
+                let mut cyc: Vec<String> = (0..n)
+                    .map(|i| {
+                        if n == 1 {
+                            "r0 = { \"(\" ~ r0? ~ \")\" }".to_string()
+                        } else {
+                            format!("r{} = {{ \"a\" ~ r{}? }}", i, (i + 1) % n)
+                        }
+                    })
+                    .collect();
+                match order {
+                    1 => cyc.reverse(),
+                    2 => cyc.rotate_left(1.min(n - 1)),
+                    _ => {}
+                }
+                let mut lines = vec![];
+                if lead {
+                    lines.push("lead = { \"l\" }".to_string());
+                }
+                lines.extend(cyc);
+                if trail {
+                    lines.push("tail = { \"t\" }".to_string());
+                }
+                out.push((n, lines.join("\n")));
+            }
+        }
+    }
+    out
 }
 
 fn write_if_changed(path: &std::path::Path, content: &str) {
